@@ -23,6 +23,11 @@ BUDGET = {"quick": 240, "thorough": 3000}
 
 def bounds(tier):
     return {"pieces_whitespace_list": PIECES["ws"](0), "pieces_comma_list": PIECES["comma"](0),
+            "character_sweep": "three layouts per symbol c (words 'x<c>y', '<c>', '<c><c>' on one line, across a continuation line, after a comment line with a "
+                               "trailing separator): read, unchanged session, every depth-1 edit and append/replace with a word containing c, observed and unobserved; c = "
+                               "each printable ASCII character, 5 non-ASCII letters, and the marker words %r (whitespace lists also %r, comma lists also %r); a symbol that "
+                               "str.split counts as white space (NBSP, U+2028/2029, VT, FF, FS/GS/RS/US, NEL, U+3000) stands inside words only ('x<c>y', 'm<c>m', 'x<c><c>y') "
+                               "and is not put into new words of a whitespace list" % (MARKER_WORDS, MARKER_WORDS_WS, MARKER_WORDS_COMMA),
             "read_layout_pieces": 4 if tier == "quick" else 5,
             "edit_depth_1_layout_pieces": 4 if tier == "quick" else 5,
             "edit_depth_2_layout_pieces": 3 if tier == "quick" else 4,
